@@ -210,13 +210,12 @@ Qed.
 
 (* encoding: every scalar value encodes to a valid 1..4 byte sequence without NUL
    (except U+0000 itself) - complete sweep of the 1114112 code points *)
+Definition enc_ok (c : N) (e : list N) : bool :=
+  utf8_valid e && (N.of_nat (length e) <=? 4) && (1 <=? N.of_nat (length e))
+  && ((c =? 0) || no_nul e) && forallb (fun b => b <? 256) e.
+
 Definition enc_char_ok (c : N) : bool :=
-  if is_scalar c then
-    utf8_valid (utf8_encode_char c) && (N.of_nat (length (utf8_encode_char c)) <=? 4)
-    && (1 <=? N.of_nat (length (utf8_encode_char c)))
-    && ((c =? 0) || no_nul (utf8_encode_char c))
-    && forallb (fun b => b <? 256) (utf8_encode_char c)
-  else true.
+  if is_scalar c then enc_ok c (utf8_encode_char c) else true.
 
 Lemma enc_char_sweep : forall_below 1114112 enc_char_ok = true.
 Proof. vm_cast_no_check (eq_refl true). Qed.
@@ -234,7 +233,7 @@ Lemma enc_char_spec c : is_scalar c = true ->
   (c <> 0 -> no_nul (utf8_encode_char c) = true).
 Proof.
   intros Hs. pose proof (forall_below_true _ _ enc_char_sweep c (is_scalar_lt c Hs)) as H.
-  unfold enc_char_ok in H. rewrite Hs in H.
+  unfold enc_char_ok in H. rewrite Hs in H. unfold enc_ok in H.
   repeat (apply andb_true_iff in H as [H ?]).
   split; [assumption|]. split.
   - match goal with H1 : (_ <=? 4) = true, H2 : (1 <=? _) = true |- _ =>
